@@ -105,22 +105,24 @@ CHECKS = {
 
 # additions of round 7 (appended to the level text of the check)
 R7 = {
- "C01": "Supplied RP IDs are also label-aligned windows of the host that are not tails, hosts cut short, and hosts that contain a registrable name before further labels.",
- "C02": "The reference store is also handed over inside each of the four lock wrappers; Android callers with fingerprints whose base64 and base64url forms differ; the consuming transports builder is called last in part of the configurations.",
- "C03": "A second stage replaces held records from outside between assertions (same id, another key pair: the signature must verify under the key now registered) and asks from another RP's site for a held credential (a store outside the lookup contract hands it out; rpIdHash, client data, signature and user handle are judged, eligibility is C05's).",
- "C05": "Lists of 16-45 entries and registrations with other algorithm lists (nothing supported, empty, supported entry last) are generated as well.",
- "C06": "The store capability varies (full / forced / non-discoverable only) and non-resident credentials are registered at the CTAP2 level.",
- "C07": "A reference store whose lookups lag behind its writes (Ok(empty) for what was just saved), and another party using the selected credential 1-4 times during the prompt, are part of the scenarios.",
- "C08": "A failed authentication must not move a stored counter backwards (pre-loaded credentials without hmac-secret material at the maximum); the consuming transports builder may follow the counter setter.",
- "C09": "A registration that succeeds without a PRF result on an authenticator that evaluates at creation, given default inputs, is a violation (a result or an error is due).",
- "C11": "652 configurations: user ids of 1..64 bytes and creation options through JSON with an unknown residentKey string.",
+ "C10": "Every lookup is also made from a generic caller and through a trait object; the call paths must agree.",
+ "C04": "480 further configurations on hmac-secret authenticators with a PRF input in the request (extension processing follows consent and must not touch the flags).",
+ "C01": "Supplied RP IDs are also label-aligned windows of the host that are not tails, hosts cut short, and hosts that contain a registrable name before further labels. Custom providers fail with every error value of the provider interface.",
+ "C02": "The reference store is also handed over inside each of the four lock wrappers; Android callers with fingerprints whose base64 and base64url forms differ; the consuming transports builder is called last in part of the configurations. One registration in eight on the (wrapped) reference store meets a store that refuses the save and may not report success.",
+ "C03": "A second stage replaces held records from outside between assertions (same id, another key pair: the signature must verify under the key now registered) and asks from another RP's site for a held credential (a store outside the lookup contract hands it out; rpIdHash, client data, signature and user handle are judged, eligibility is C05's). Records with private scalars shorter than 32 bytes and an assertion on a record with an unusable key before the judged one; in client authentications the user gives what each request asks for.",
+ "C05": "Lists of 16-45 entries and registrations with other algorithm lists (nothing supported, empty, supported entry last) are generated as well. Users who are present but not verified, and per-credential PRF inputs keyed by every held credential of the RP.",
+ "C06": "The store capability varies (full / forced / non-discoverable only) and non-resident credentials are registered at the CTAP2 level. hmac-secret-mc inputs at the CTAP2 level, and odd-sized PRF secrets evaluated under catch_unwind with the panic message scanned.",
+ "C07": "A reference store whose lookups lag behind its writes (Ok(empty) for what was just saved), and another party using the selected credential 1-4 times during the prompt, are part of the scenarios. Client registrations vary attestation preference and timeout.",
+ "C08": "A failed authentication must not move a stored counter backwards (pre-loaded credentials without hmac-secret material at the maximum); the consuming transports builder may follow the counter setter. PRF requests are independent of the UV requirement and the user gives what each request asks for (a client that turns to the authenticator twice shows as a jump of two).",
+ "C09": "A registration that succeeds without a PRF result on an authenticator that evaluates at creation, given default inputs, is a violation (a result or an error is due). credProps alongside PRF; a validation method that reports verification without advertising it ('verified' is what the validation step reported).",
+ "C11": "652 configurations: user ids of 1..64 bytes and creation options through JSON with an unknown residentKey string. 724 configurations: relying parties named in the library's sources, credProps also read from the serialised credential.",
  "C13": "A third of the partial option maps also carry an unknown text key.",
  "C14": "String::from(Bytes) must be inverted by the strict base64url decoder.",
- "C15": "Names with characters whose case mappings change the encoded length and asset links without a host against address-host statement URLs are generated and fixed.",
- "C16": "Payloads that carry another channel's id (every command x offset x byte order while that channel has a message in progress) and merges that start while 1..1000 other channels hold unfinished transmissions.",
- "C17": "Constant-byte application parameters: each of the 256 values once, and in a fifth of the histories.",
- "C18": "A third of the cases run on authenticators that answered 1-4 earlier uv requests (declined / timed out / consented), one side through the direct methods, the other through the trait; the earlier results are compared too.",
- "C19": "In every schedule the counters handed to the shared store equal the counters that reach the store behind the wrapper, and an answered assertion reports the value it asked the store to hold.",
+ "C15": "Names with characters whose case mappings change the encoded length and asset links without a host against address-host statement URLs are generated and fixed. Growth families with line breaks / padding characters / blanks after a short base64 value.",
+ "C16": "Payloads that carry another channel's id (every command x offset x byte order while that channel has a message in progress) and merges that start while 1..1000 other channels hold unfinished transmissions. A transport that fails one write call (success reported => complete stream handed over), and one transmission with a real pause of 3.6 s (12 s thorough) between packets.",
+ "C17": "Constant-byte application parameters: each of the 256 values once, and in a fifth of the histories. Unknown handles that are rearrangements of a registered one; a reference store that does not persist counters.",
+ "C18": "A third of the cases run on authenticators that answered 1-4 earlier uv requests (declined / timed out / consented), one side through the direct methods, the other through the trait; the earlier results are compared too. A sixth of the cases start after a cancelled request on each side; held user handles of up to 1.3 kB.",
+ "C19": "In every schedule the counters handed to the shared store equal the counters that reach the store behind the wrapper, and an answered assertion reports the value it asked the store to hold. Declined assertions (must not write to the shared store) and allow lists naming both held credentials.",
 }
 
 NOT_BUILT_REASON = "engine designed in DESIGN.md §4 but not built yet in this snapshot (work in progress; not a claim that the technique cannot apply)"
